@@ -222,15 +222,17 @@ impl Check for C17 {
 }
 
 pub fn checks() -> Vec<Box<dyn DynCheck>> {
-    vec![Box::new(C17)]
+    vec![Box::new(C17), Box::new(super::extendpaths::ExtHll)]
 }
 
 pub fn run(ctx: &Ctx) {
-    ctx.set_rule("generated: b in 4..=18, multiset of <=120 (quick) / <=300 (thorough) 64-bit hashes from {random, 0, MAX, single bits, low-bits-only, chosen register+rank}, a permutation and duplication pattern, keys for add under Ident/Sip/Seeded/Mix hashers (u64 elements; under the real hashers also str, [u8] and tuple elements). Non-trivial: >=2 hashes address one register with different ranks, or a hash with all upper bits zero is present. Distinct = hash of (b, sorted distinct hashes, keys, hasher).");
+    ctx.set_rule("generated: b in 4..=18, multiset of <=120 (quick) / <=300 (thorough) 64-bit hashes from {random, 0, MAX, single bits, low-bits-only, chosen register+rank}, a permutation and duplication pattern, keys for add under Ident/Sip/Seeded/Mix hashers (u64 elements; under the real hashers also str, [u8] and tuple elements). Non-trivial: >=2 hashes address one register with different ranks, or a hash with all upper bits zero is present. Distinct = hash of (b, sorted distinct hashes, keys, hasher). extend_path: default-hasher HyperLogLog (b 4..=12) fed through Extend<T> / Extend<&T> in generated chunks: registers, count and is_empty equal to a sketch filled by add calls after every chunk.");
     ctx.assume("reference register model written from the property text (bit scan), not from the implementation's leading_zeros formula");
     ctx.run_regressions(&[&C17]);
     let tier = ctx.tier;
     ctx.run_random(&C17, tier.pick(400_000, 6_000_000), move || strategy(tier));
+    // both Extend entry points of the default-hasher HyperLogLog
+    ctx.run_random(&super::extendpaths::ExtHll, tier.pick(30_000, 300_000), super::extendpaths::hll_strategy);
     ctx.require_class("registers_model", "register_with_two_ranks", 0.2);
     ctx.require_class("registers_model", "upper_bits_zero", 0.05);
 }
